@@ -175,7 +175,7 @@ impl Prop for C08 {
         ]
     }
     fn cases(&self, tier: Tier) -> u32 {
-        tier.pick(6_000, 150_000)
+        tier.pick(80_000, 400_000)
     }
     fn enumerated_subspaces(&self, _tier: Tier) -> Vec<String> {
         vec![
